@@ -549,6 +549,7 @@ def setup(rep, tier):
     rep.minimum('R17.3', 20)
     rep.minimum('R17.4', 3)
     rep.minimum('R17.6', 1)
+    rep.minimum('R17.7', 4)
     if tier == 'thorough':
         rep.minimum('R17.5', 1)
     rep.trusted.append('python port of log2_frac (celt/cwrs.c) used as the generator oracle for the pulse cache; exact integer recurrence for U')
@@ -608,7 +609,58 @@ def r17_6(rep, prog):
     return n
 
 
+# ------------------------------------------------------------------ R17.7
+def _is_mask_def(r):
+    r = sx.strip(r)
+    return sx.kind(r) == 'un' and r[1] == '-' and sx.kind(sx.strip(r[2])) == 'bin' and sx.strip(r[2])[1] in ('<', '>', '<=', '>=', '!=', '==')
+
+
+def r17_7(rep, prog):
+    """conditional negation through a sign mask: with s = -(cond) in {0, -1}, (x + s) ^ s is x or -x, while x ^ s alone is
+    x or -x-1.  Every XOR with such a mask in the entropy-coding layer (PVQ index decoding, Laplace coding) must therefore
+    have the mask added to its other operand first.  A write-back or a decoded pulse that drops the `+ s` is off by one for
+    negative values only - which the decoder's sign handling does not share."""
+    n = 0
+    for f in prog.functions_all:
+        if not f.file.startswith('celt/'):
+            continue
+        masks = set()
+        for x in f.all_nodes():
+            if x[0] == 'assign' and sx.kind(sx.strip(x[1])) == 'local' and _is_mask_def(x[2]):
+                masks.add(sx.strip(x[1])[2])
+            if sx.kind(x) == 'decls':
+                for d in x[1]:
+                    if d[0] == 'decl' and d[3] is not None and _is_mask_def(d[3]):
+                        masks.add(d[2])
+        if not masks:
+            continue
+        seen = set()
+        for x in f.all_nodes():
+            if sx.kind(x) != 'bin' or x[1] != '^':
+                continue
+            for a, b in ((x[2], x[3]), (x[3], x[2])):
+                m = sx.strip(b)
+                if not (sx.kind(m) == 'local' and m[2] in masks):
+                    continue
+                txt = sx.show(x)
+                if txt in seen:
+                    continue
+                seen.add(txt)
+                n += 1
+                rep.functions.add(f.name)
+                e = sx.strip(a)
+                ok = sx.kind(e) == 'bin' and e[1] == '+' and any(sx.kind(sx.strip(y)) == 'local' and sx.strip(y)[2] == m[2] for y in (e[2], e[3]))
+                inst = '%s:%s negates through the sign mask completely: `%s`' % (prog.config, f.name, txt[:50])
+                where = '%s:%s' % (f.file, sx.line(x) or f.line)
+                if ok:
+                    rep.holds('R17.7', inst, where, '(x + s) ^ s')
+                else:
+                    rep.violated('R17.7', inst, where, 'XOR with the sign mask `%s` without adding the mask first: the result is -x-1 instead of -x for negative values' % m[1], key='%s:mask-negate:%s' % (f.name, txt[:30].replace(' ', '')))
+    return n
+
+
 def check(rep, prog, tier):
+    r17_7(rep, prog)
     r17_6(rep, prog)
     pt = PointsTo(prog)
     r17_1(rep, prog, pt)
